@@ -70,6 +70,8 @@ func exprText(e ast.Expr) string {
 		return exprText(x.X) + "." + x.Sel.Name
 	case *ast.StarExpr:
 		return "*" + exprText(x.X)
+	case *ast.IndexExpr:
+		return exprText(x.X) + "[" + exprText(x.Index) + "]"
 	case *ast.CallExpr:
 		args := []string{}
 		for _, a := range x.Args {
@@ -112,6 +114,10 @@ func (t *tr) expr(e ast.Expr) string {
 			return "(" + b + " <? " + a + ")"
 		case token.LSS:
 			return "(" + a + " <? " + b + ")"
+		case token.LAND:
+			return "(" + a + " && " + b + ")"
+		case token.LOR:
+			return "(" + a + " || " + b + ")"
 		}
 	case *ast.UnaryExpr:
 		if x.Op == token.NOT {
@@ -217,6 +223,9 @@ func (t *tr) stmts(ss []ast.Stmt) string {
 			return t.fail("unsupported if form")
 		}
 		return "if " + t.expr(s.Cond) + " then (" + t.stmts(s.Body.List) + ")\n  else (" + t.stmts(ss[1:]) + ")"
+	case *ast.IncDecStmt:
+		// a state update after the decision; the decision is what is translated
+		return t.stmts(ss[1:])
 	case *ast.ExprStmt, *ast.EmptyStmt:
 		// comments / logging calls are not part of the value
 		if es, ok := s.(*ast.ExprStmt); ok {
@@ -461,6 +470,29 @@ func genAppConsts(repo string) (string, error) {
 		return "", fmt.Errorf("checkConfig: %v", tc.err)
 	}
 	fmt.Fprintf(&sb, "(* ShutterApp.checkConfig as a boolean; the last config's fields are parameters *)\nDefinition gen_check_config (len_keypers threshold act idx last_act last_idx : Z) : bool :=\n  %s.\n\n", ccBody)
+
+	// CheckTxState.AddTx (checktx.go): the admission decision; the updates after it are skipped
+	fc, _, err := parseFile(repo, "app/checktx.go")
+	if err != nil {
+		return "", err
+	}
+	at := findFunc(fc, "AddTx")
+	if at == nil || at.Recv == nil || len(at.Recv.List) != 1 || len(at.Recv.List[0].Names) != 1 ||
+		len(at.Type.Params.List) != 2 || len(at.Type.Params.List[0].Names) != 1 || len(at.Type.Params.List[1].Names) != 1 {
+		return "", fmt.Errorf("AddTx: unexpected signature")
+	}
+	rv, sv, mv := at.Recv.List[0].Names[0].Name, at.Type.Params.List[0].Names[0].Name, at.Type.Params.List[1].Names[0].Name
+	ta := &tr{rename: map[string]string{
+		"len(" + rv + ".Members)":   "len_members",
+		rv + ".Members[" + sv + "]":  "is_member",
+		rv + ".TxCounts[" + sv + "]": "tx_count",
+		rv + ".NonceTracker.Check(" + sv + "," + mv + ".RandomNonce)": "nonce_fresh",
+		"MaxTxsPerBlock": "gen_max_txs_per_block"}}
+	atBody := ta.stmts(at.Body.List)
+	if ta.err != nil {
+		return "", fmt.Errorf("AddTx: %v", ta.err)
+	}
+	fmt.Fprintf(&sb, "(* CheckTxState.AddTx: whether the transaction is admitted *)\nDefinition gen_add_tx_ok (len_members : Z) (is_member : bool) (tx_count : Z) (nonce_fresh : bool) : bool :=\n  %s.\n\n", atBody)
 
 	// forks.go
 	f, _, err = parseFile(repo, "app/forks.go")
